@@ -174,6 +174,17 @@ func runCheck(p *Prog, prop, tier string, timeout, workers int, verbose bool) in
 	tmp, _ := os.MkdirTemp("", "govc-"+prop)
 	defer os.RemoveAll(tmp)
 	out.Obls = dischargeGroups(out.Obls, tmp, timeout, workers)
+	// thorough tier: every proof is re-checked by the other solvers of the portfolio
+	crossConfirmed, crossTotal := 0, 0
+	var crossDisagree []string
+	if tier == "thorough" {
+		for _, o := range out.Obls {
+			if !o.WantSat && o.Result == "unsat" && o.Solver != "structural" {
+				crossTotal++
+			}
+		}
+		crossConfirmed, crossDisagree = crossCheck(out.Obls, filepath.Join(tmp, "cross"), 5, workers)
+	}
 	var extraNotes []string
 	if prop == "C13" {
 		cov, notes := p.mapRangeCoverage(prop, out.Obls)
@@ -279,6 +290,13 @@ func runCheck(p *Prog, prop, tier string, timeout, workers int, verbose bool) in
 		out.Violations = append(out.Violations, o.Name)
 		exit = 1
 	}
+	for _, d := range crossDisagree {
+		o := &Obligation{Name: "solver-disagreement:" + d, Kind: "vacuity", Src: d}
+		rp := writeReplay(prop, o, "two solvers of the portfolio give opposite answers on the same query")
+		fmt.Printf("VIOLATION property=%s replay=%s no-failing-input-found\n", prop, rp)
+		out.Violations = append(out.Violations, o.Name)
+		exit = 1
+	}
 	for _, k := range out.Missing {
 		o := &Obligation{Name: k + "#contract-key", Kind: "vacuity", Src: "function under contract not found in the program"}
 		rp := writeReplay(prop, o, "the contract file names a function that no longer exists; its obligations cannot be generated")
@@ -360,6 +378,7 @@ func runCheck(p *Prog, prop, tier string, timeout, workers int, verbose bool) in
 			"trusted_base":             trustedBase(p, out),
 			"functions_under_contract": fns,
 			"discharged_by_backend":    bySolver,
+			"cross_checked":            map[string]any{"unsat_obligations": crossTotal, "confirmed_by_a_second_solver": crossConfirmed, "disagreements": len(crossDisagree), "note": "thorough tier only: each discharged obligation is re-run on the other solvers (5 s each); a second solver may time out, it must never answer sat"},
 			"solver_time_s":            round3(solverTime),
 			"vacuity_guards_passed":    reachOK,
 			"known_findings":           out.Known,
